@@ -77,6 +77,12 @@ def run(rep: Report, ctx: Any) -> str:
                        "a private helper that asks), every path on which K is taken ends - from the question on - in an error return or "
                        "a raise, whatever else is found out about the entry that holds the key")
 
+    rep.rule("R07.13", "a diagnostic outlives the rounds of a work-list loop: where a loop over items of the document runs inside a loop "
+                       "whose body re-binds the work list from a list it starts afresh every round (the queue for the next round), an error "
+                       "appended to a list that is likewise started afresh every round is appended for an item that is queued again on the "
+                       "same path (the next round records it anew); the error of an item that is not attempted again goes to a list the "
+                       "rounds do not reset")
+
     # ---- R07.1 -------------------------------------------------------------------------------------------------------
     returns_err: dict[str, list[Any]] = {}
     for f in ix.all_functions:
@@ -113,6 +119,8 @@ def run(rep: Report, ctx: Any) -> str:
     # ---- R07.2 -----------------------------------------------------------------------------------------------------------
     n_ends = 0
     n_loops = 0
+    n_rounds = 0
+    frail_ends: list[tuple[ast.AST, str]] = []
     kinds_seen: set[str] = set()
     for f, loops in sorted(document_loops(ix).items(), key=lambda kv: kv[0].qual):
         sf = short(f)
@@ -147,6 +155,21 @@ def run(rep: Report, ctx: Any) -> str:
                                                        "there is no item", nontrivial=False)
                 else:
                     rep.ok("R07.2", key, gtxt[:80], "every path records a diagnostic or keeps the item")
+                if an.requeue and not isinstance(end, ast.Return):
+                    for s_ in states:
+                        if s_.frail and not s_.again and (end, gtxt) not in frail_ends:
+                            frail_ends.append((end, gtxt))
+            if an.requeue:
+                n_rounds += 1
+                rep.check(not frail_ends, "R07.13", f"{sf}::round-record [for _ in {role_anon(lp.iter, f.node)[:60]}]",
+                          f"an error of an item ({kind_of_item}) is appended to a list that the round loop around this loop starts afresh every "
+                          "round, on a path that does not queue the item for the next round: as soon as another round runs the list is "
+                          "emptied, the item is not attempted again and nothing names it", where(f, frail_ends[0][0] if frail_ends else lp),
+                          lhs=[f"{type(e_).__name__.lower()} under [{g_[:60]}] @ line {getattr(e_, 'lineno', 0)}" for e_, g_ in frail_ends],
+                          rhs="on every path: appended to the per-round list => the item is appended to the queue for the next round; "
+                              "otherwise recorded in a list bound outside the round loop")
+            frail_ends = []
+    rep.floor("round_loops", n_rounds, 1)
     rep.floor("document_loops", n_loops, 4)
     rep.floor("loop_skips", n_ends, 16)
     rep.require(set(ENUMERATED) <= kinds_seen, f"a loop over each kind of item the property enumerates {ENUMERATED}; found {sorted(kinds_seen)}")
@@ -1911,14 +1934,17 @@ def _iteration_helpers(ix: Any, f: Any) -> dict[str, Any]:
 # ---- what happens to the item on each path through one iteration -------------------------------------------------------------------
 class _S:
     """facts that hold on the paths reaching a program point inside one iteration"""
-    __slots__ = ("rec", "keep", "pend", "absent", "err", "ok", "none", "errl")
+    __slots__ = ("rec", "keep", "pend", "absent", "err", "ok", "none", "errl", "frail", "again")
 
     def __init__(self, rec: bool = False, keep: bool = False, pend: bool = False, absent: bool = False,
-                 err: frozenset = frozenset(), ok: frozenset = frozenset(), none: frozenset = frozenset(), errl: frozenset = frozenset()) -> None:
+                 err: frozenset = frozenset(), ok: frozenset = frozenset(), none: frozenset = frozenset(), errl: frozenset = frozenset(),
+                 frail: bool = False, again: bool = False) -> None:
         self.rec, self.keep, self.pend, self.absent, self.err, self.ok, self.none, self.errl = rec, keep, pend, absent, err, ok, none, errl
+        # frail: an error was appended to a list that the enclosing round loop starts afresh; again: the item was queued for the next round
+        self.frail, self.again = frail, again
 
     def key(self) -> tuple:
-        return (self.rec, self.keep, self.pend, self.absent, self.err, self.ok, self.none, self.errl)
+        return (self.rec, self.keep, self.pend, self.absent, self.err, self.ok, self.none, self.errl, self.frail, self.again)
 
     def __hash__(self) -> int:
         return hash(self.key())
@@ -1980,6 +2006,7 @@ class _Iteration:
             {name for name, ds in self.lc.defs.items() if any(id(st) not in inside and st is not lp for _, st, _v in ds)}
         # slots: locals only ever bound by selecting, with the loop variable, a field / key of some object
         self.slots = {name for name, ds in self.lc.defs.items() if ds and all(self._selects(v, tg) for _, _, v in ds)}
+        self.requeue, self.per_round = _round_structure(self.fn, lp)
         out = self._seq(lp.body, {_S()})
         self._end(lp, out)
         return sorted(self.ends.values(), key=lambda e: (getattr(e[0], "lineno", 0) if e[0] is not lp else 10 ** 9))
@@ -2166,6 +2193,7 @@ class _Iteration:
 
     def _simple(self, st: ast.stmt, s: _S) -> _S:
         rec, keep = False, False
+        frail = again = False
         for c in walk_own(st):
             if isinstance(c, (ast.Yield, ast.YieldFrom)) and c.value is not None:
                 # a generator hands the value to whoever iterates it, exactly as `return` hands it to the caller: an error that is
@@ -2181,8 +2209,12 @@ class _Iteration:
                 arg = c.args[-1] if c.func.attr == "insert" else c.args[0]
                 if c.func.attr != "insert" and self._is_error_value(arg, s):
                     rec = True
+                    if isinstance(c.func.value, ast.Name) and c.func.value.id in self.per_round:
+                        frail = True
                 elif names_in(arg) & self.dep and self._outlives(c.func.value):
                     keep = True
+                if isinstance(c.func.value, ast.Name) and c.func.value.id in self.requeue and names_in(arg) & self.dep:
+                    again = True
         if isinstance(st, ast.Assign):
             for t in st.targets:
                 if isinstance(t, ast.Subscript) and names_in(st.value) & self.dep and self._outlives(t.value):
@@ -2200,6 +2232,8 @@ class _Iteration:
             out = out.but(rec=True, pend=False)
         if keep:
             out = out.but(keep=True)
+        if frail or again:
+            out = out.but(frail=out.frail or frail, again=out.again or again)
         return out
 
     def _refine(self, test: ast.expr, s: _S, want: bool) -> set[_S]:
@@ -2247,6 +2281,38 @@ class _Iteration:
                 return {s.but(none=s.none | {n}, absent=s.absent or n in self.slots)}
             return set() if n in s.none else {s}
         return {s}
+
+
+def _round_structure(fn: ast.AST, lp: ast.For) -> tuple[set[str], set[str]]:
+    """(queues for the next round, other lists started afresh every round) of the round loop(s) around document loop lp: a loop
+    around lp is a round loop when its body, outside lp, binds a local to an empty list and re-binds what lp goes through from that
+    local; every other local its body binds to an empty list outside lp lives one round only.  Both empty: no round structure."""
+    def fresh(v: "ast.AST | None") -> bool:
+        return (isinstance(v, (ast.List, ast.Tuple)) and not v.elts) or (isinstance(v, ast.Call) and call_name(v) in ("list", "deque", "collections.deque")
+                                                                         and not v.args and not v.keywords)
+
+    inside = {id(n) for n in ast.walk(lp)}
+    work = names_in(lp.iter)
+    requeue: set[str] = set()
+    per_round: set[str] = set()
+    for a in _ancestors(fn, lp):
+        if not isinstance(a, (ast.While, ast.For)):
+            continue
+        started: set[str] = set()
+        moved: set[str] = set()
+        for st in _own_walk(a):
+            if id(st) in inside or st is a or not isinstance(st, (ast.Assign, ast.AnnAssign)) or st.value is None:
+                continue
+            tgts = st.targets if isinstance(st, ast.Assign) else [st.target]
+            for t in tgts:
+                if isinstance(t, ast.Name) and fresh(st.value):
+                    started.add(t.id)
+                if isinstance(t, ast.Name) and t.id in work:
+                    moved |= names_in(_through_copies(st.value)) if isinstance(_through_copies(st.value), ast.Name) else set()
+        if moved & started:
+            requeue |= moved & started
+            per_round |= started - moved
+    return requeue, per_round
 
 
 def _innermost_if(loop: ast.AST, st: ast.AST) -> ast.If | None:
